@@ -189,6 +189,11 @@ def _task(args):
                 rec = sweep.smallscope_record(idx, opts.get("max_len", 3))
                 w = run_record(rec)
                 agg.add_world(w, tag="small#%d" % idx)
+        elif kind == "smallscope19":
+            from checks import sweep
+            bases = sweep.smallscope19_bases(opts.get("max_len", 2))
+            for idx in payload:
+                sweep.sweep_base(bases[idx], 778000 + idx, agg, dict(opts, crash_limit=10**6, fault_limit=10**6))
         elif kind == "canary":
             from selftest import canaries
             cls = canaries.by_name(opts["canary"])
